@@ -60,6 +60,7 @@ class Ctx:
         self.only_instance = only_instance
         self.rules_run: list[str] = []
         self.shortfalls: list[str] = []
+        self.selfvalidation: dict | None = None
 
     # ---------------------------------------------------------------- recording
     def touch(self, fi: FunctionInfo) -> FunctionInfo:
@@ -281,6 +282,7 @@ def write_evidence(ctx: Ctx, t0: float, seed: int, stats: dict, n_viol: int, n_k
             "indexed": stats,
             "samples": samples,
             "notes": ctx.notes,
+            "checker_selfvalidation": ctx.selfvalidation,
             "exhaustive": False,
         },
         "assumptions": doc.get("assumptions", [])
